@@ -200,6 +200,7 @@ func checkC07(c *Ctx) {
 	c08SingleCloser(c, fns)
 	c07HeaderValuesValidated(c, fns)
 	c07CloseAfterExit(c)
+	c07BoundedDrain(c, "R-bounded-drain")
 	c06IndexGuard(c, fns, "R-index-guard")
 	c07AnswerNonNil(c, fns)
 
@@ -1149,7 +1150,240 @@ func c07CloseAfterExit(c *Ctx) {
 			})
 		}
 	}
+	// the same for ending the child: once it has exited by itself (garbage on stdout makes the reader cancel the
+	// transport, which kills and reaps it) Signal and Kill fail with os.ErrProcessDone. Their error may be reported by
+	// close only where that is ruled out (errors.Is), or in the arm of a select taken instead of the receive that
+	// says the child has exited.
+	for _, T := range c.P.Implementers(tr.Underlying().(*types.Interface)) {
+		cl := c.P.Method(T, c.transportCloseMethod(tr))
+		if cl == nil {
+			continue
+		}
+		for _, fn := range sortedFuncs(c.ReachSync(cl)) {
+			if !c.P.IsLib(fn) {
+				continue
+			}
+			var pd *flow.PostDom
+			ir.EachInstr(fn, func(_ *ssa.BasicBlock, _ int, in ssa.Instruction) {
+				call, ok := in.(*ssa.Call)
+				if !ok || call.Referrers() == nil {
+					return
+				}
+				nm := ir.CallName(call)
+				if nm != "(*os.Process).Kill" && nm != "(*os.Process).Signal" {
+					return
+				}
+				var isCalls []*ssa.Call
+				var uses []ssa.Instruction
+				for _, r := range *call.Referrers() {
+					switch x := r.(type) {
+					case *ssa.BinOp:
+						continue
+					case *ssa.Call:
+						if ir.CallName(x) == "errors.Is" {
+							isCalls = append(isCalls, x)
+							continue
+						}
+						uses = append(uses, x)
+					case *ssa.MakeInterface:
+						if x.Referrers() != nil {
+							for _, rr := range *x.Referrers() {
+								uses = append(uses, rr)
+							}
+						}
+					case *ssa.ChangeInterface:
+						if x.Referrers() != nil {
+							for _, rr := range *x.Referrers() {
+								uses = append(uses, rr)
+							}
+						}
+					default:
+						uses = append(uses, r)
+					}
+				}
+				// uses that only log do not make Close fail; a value boxed into a variadic argument list is used by the
+				// call that receives the list
+				isLog := func(uc *ssa.Call) bool {
+					return uc.Call.IsInvoke() && strings.HasSuffix(ir.TypeStr(uc.Call.Value.Type()), "Logger")
+				}
+				var reporting []ssa.Instruction
+				for _, u := range uses {
+					if uc, ok := u.(*ssa.Call); ok && isLog(uc) {
+						continue
+					}
+					if st, isStore := u.(*ssa.Store); isStore {
+						if ia, ok := st.Addr.(*ssa.IndexAddr); ok {
+							if al, ok := ia.X.(*ssa.Alloc); ok && al.Referrers() != nil {
+								resolved := false
+								for _, ar := range *al.Referrers() {
+									sl, ok := ar.(*ssa.Slice)
+									if !ok || sl.Referrers() == nil {
+										continue
+									}
+									for _, sr := range *sl.Referrers() {
+										if uc, ok := sr.(*ssa.Call); ok {
+											resolved = true
+											if !isLog(uc) {
+												reporting = append(reporting, uc)
+											}
+										}
+									}
+								}
+								if resolved {
+									continue
+								}
+							}
+						}
+					}
+					reporting = append(reporting, u)
+				}
+				if len(reporting) == 0 {
+					return
+				}
+				n++
+				if pd == nil {
+					pd = flow.NewPostDom(fn)
+				}
+				okAll := true
+				for _, u := range reporting {
+					filtered := false
+					for _, g := range pd.ControlDepsTransitive(u.Block()) {
+						cond := g.If.Cond
+						for {
+							if un, ok := cond.(*ssa.UnOp); ok && un.Op == token.NOT {
+								cond = un.X
+								continue
+							}
+							break
+						}
+						for _, ic := range isCalls {
+							if cond == ssa.Value(ic) {
+								if gl, ok := ic.Call.Args[1].(*ssa.UnOp); ok {
+									if g2, ok := gl.X.(*ssa.Global); ok && g2.Name() == "ErrProcessDone" {
+										filtered = true
+									}
+								}
+							}
+						}
+						// an arm of a select: index test of the select's result
+						if bin, ok := cond.(*ssa.BinOp); ok {
+							for _, side := range []ssa.Value{bin.X, bin.Y} {
+								if ex, ok := side.(*ssa.Extract); ok {
+									if sel, ok := ex.Tuple.(*ssa.Select); ok && sel.Blocking {
+										filtered = true
+									}
+								}
+							}
+						}
+					}
+					if !filtered {
+						okAll = false
+					}
+				}
+				c.R.Check(okAll, "R-close-succeeds", "error of "+nm+" in "+fname(fn), c.Pos(call.Pos()), "reported only when the child cannot have exited already",
+					sprintf("%s reports the error of %s without ruling out os.ErrProcessDone: after the child has exited on its own (a server that wrote garbage is killed and reaped by the transport) Close fails with 'process already finished' instead of succeeding", fname(fn), nm))
+			})
+		}
+	}
 	if n == 0 {
 		c.R.Hold("R-close-succeeds", "no pipe-close error is reported by a transport's close", "", "")
+	}
+}
+
+// ---------------------------------------------------------------- R-bounded-drain
+// Reading a response body only to throw the bytes away ("drain it so that the connection can be reused") is paced and
+// bounded by the server, not by the client: a body that never ends keeps the call — whose real answer may long have
+// arrived on the event stream — from returning. On the client side a read-to-EOF whose bytes are discarded
+// (io.Copy to io.Discard, io.ReadAll with an unused result) must therefore go through io.LimitReader / LimitedReader.
+func c07BoundedDrain(c *Ctx, rule string) {
+	isBody := func(v ssa.Value) (bool, bool) { // (derives from a Response.Body, bounded)
+		bounded := false
+		for i := 0; i < 8 && v != nil; i++ {
+			switch x := v.(type) {
+			case *ssa.MakeInterface:
+				v = x.X
+			case *ssa.ChangeInterface:
+				v = x.X
+			case *ssa.Call:
+				switch ir.CallName(x) {
+				case "io.LimitReader", "net/http.MaxBytesReader":
+					bounded = true
+					v = x.Call.Args[len(x.Call.Args)-2]
+					if ir.CallName(x) == "io.LimitReader" {
+						v = x.Call.Args[0]
+					}
+				default:
+					return false, bounded
+				}
+			case *ssa.UnOp:
+				if f, _, ok := ir.LoadedField(x); ok && f.Name == "Body" && f.Struct != nil && ir.TypeKey(f.Struct) == "net/http.Response" {
+					return true, bounded
+				}
+				return false, bounded
+			case *ssa.Parameter:
+				// a helper handed the body: io.ReadCloser / io.Reader parameter of a client-side function
+				s := ir.TypeStr(x.Type())
+				return s == "io.ReadCloser" || s == "io.Reader", bounded
+			default:
+				return false, bounded
+			}
+		}
+		return false, bounded
+	}
+	n := 0
+	for _, fn := range c.P.LibFns {
+		if !clientSide(c, fn) {
+			continue
+		}
+		ir.EachInstr(fn, func(_ *ssa.BasicBlock, _ int, in ssa.Instruction) {
+			call, ok := in.(*ssa.Call)
+			if !ok {
+				return
+			}
+			var src ssa.Value
+			discards := false
+			switch ir.CallName(call) {
+			case "io.Copy":
+				src = call.Call.Args[1]
+				if mi, ok := call.Call.Args[0].(*ssa.MakeInterface); ok {
+					if u, ok := mi.X.(*ssa.UnOp); ok {
+						if g, ok := u.X.(*ssa.Global); ok && g.Name() == "Discard" {
+							discards = true
+						}
+					}
+				}
+				if u, ok := call.Call.Args[0].(*ssa.UnOp); ok {
+					if g, ok := u.X.(*ssa.Global); ok && g.Name() == "Discard" {
+						discards = true
+					}
+				}
+			case "io.ReadAll", "io/ioutil.ReadAll":
+				src = call.Call.Args[0]
+				used := false
+				if call.Referrers() != nil {
+					for _, r := range *call.Referrers() {
+						if ex, ok := r.(*ssa.Extract); ok && ex.Index == 0 && ex.Referrers() != nil && len(*ex.Referrers()) > 0 {
+							used = true
+						}
+					}
+				}
+				discards = !used
+			default:
+				return
+			}
+			if !discards {
+				return
+			}
+			body, bounded := isBody(src)
+			if !body {
+				return
+			}
+			n++
+			c.R.Check(bounded, rule, sprintf("response body drained in %s", fname(fn)), c.Pos(call.Pos()), "the discarded read is bounded by io.LimitReader",
+				sprintf("%s reads a response body to its end only to discard the bytes, without a bound: a server whose body never ends (or is very large) keeps the call from returning although its answer has already arrived", fname(fn)))
+		})
+	}
+	if n == 0 {
+		c.R.Hold(rule, "no response body is read to EOF only to be discarded", "", "client-side io.Copy(io.Discard, …) / unused io.ReadAll of a response body: none")
 	}
 }
